@@ -855,6 +855,13 @@ func (c *cenv) call(x *CCall) (cval, error) {
 		arr := "G_" + x.Fn
 		e.harr(arr, "(Array Ref Bool)")
 		return cval{fmt.Sprintf("(select %s %s)", e.hnameIn(arr, c.st), a[0].s), "Bool", nil}, nil
+	case "heldset", "rheldset":
+		arr := "G_held"
+		if x.Fn == "rheldset" {
+			arr = "G_rheld"
+		}
+		e.harr(arr, "(Array Ref Bool)")
+		return cval{e.hnameIn(arr, c.st), "(Array Ref Bool)", nil}, nil
 	case "addr":
 		// addr(x.f): address of a by-value struct field (e.g. an embedded sync.Mutex)
 		a, err := c.args(x, 1)
